@@ -36,7 +36,10 @@ def crender(node, style, col, ic, N=0):
         first = (lead or "") + head
         fc = c if lead is None else c + N          # a line starting with '}' starts at the brace column
         if body[0] == "bare":
-            return [pad(fc) + first] + crender(body[1], style, c + ic, ic, N), None
+            # indent_else_if = false (default, documented): an 'if' that is the unbraced body of an 'else' is treated as
+            # 'else if' for indenting, i.e. it stays at the column of the 'else'
+            deeper = 0 if (head == "else" and body[1][0] in ("if", "ifelse", "chain")) else ic
+            return [pad(fc) + first] + crender(body[1], style, c + deeper, ic, N), None
         bc = c + N
         if style != "allman":
             out = [pad(fc) + first + " {"]
